@@ -47,6 +47,11 @@ def fold_types(ctx: Ctx, fn: Func, e: ast.expr, depth: int = 0) -> list[str] | N
                     return None
                 out += sub
         return out
+    if isinstance(e, ast.BinOp) and isinstance(e.op, ast.Add):
+        a, b = fold_types(ctx, fn, e.left, depth + 1), fold_types(ctx, fn, e.right, depth + 1)
+        return None if a is None or b is None else a + b
+    if isinstance(e, ast.Call) and isinstance(e.func, ast.Name) and e.func.id == "tuple" and len(e.args) == 1 and not e.keywords:
+        return fold_types(ctx, fn, e.args[0], depth + 1)
     if isinstance(e, ast.Name):
         if e.id in fn.param_names():
             return [f"<{e.id}>"]
@@ -202,7 +207,17 @@ def run(ctx: Ctx) -> None:
         return out
 
     bf = occurred_before(g, evs)
-    ctx.ob("C16.R2", sb, "connection-change check precedes the return", bool(rets) and all("conn-check" in bf.get(n, frozenset()) for n in rets), "")
+    # (a response that is a connection-state message never reaches a return without the check; other responses may)
+    respv = None
+    for n in own_nodes(sb.node):
+        if isinstance(n, ast.Assign) and any(c is calls_[0] for c in ast.walk(n.value)):
+            for t in ast.walk(n.targets[0]):
+                if isinstance(t, ast.Name):
+                    respv = t.id
+    chk_nodes = {n for n in g.reachable() if "conn-check" in evs(n)}
+    free = walk(g, {"conn_msg": True}, make_classify(sb, respv or "resp", None, None), blocked=chk_nodes)
+    unchecked = [n for n in free if isinstance(n.ast, ast.Return)]
+    ctx.ob("C16.R2", sb, "connection-change check precedes the return", bool(rets) and bool(chk_nodes) and not unchecked, f"a connection-state message can be returned as the operation's result at L{[n.lineno for n in unchecked][:2]}")
 
     def cl_err(n: Node):
         t = n.ast
